@@ -20,9 +20,9 @@ from vf.ref import p1_ref
 ID = "C13"
 LEVEL = "exploration"
 RULE = (
-    "history = byte stream (clean HDLC in C02's domain / clean P1 / corrupted frames / noise-prefixed / mixed) x splitting into data_received() calls "
+    "history = byte stream (clean HDLC in C02's domain / clean P1 / corrupted frames / noise-prefixed / mixed / one pre-selection call of more than 8 KiB with the selecting message late) x splitting into data_received() calls "
     "x candidate list ([HDLC cfg], [P1], [HDLC,P1], [P1,HDLC]) x protocol class (payload, message). oracle: queue contents == model(selection rule over shadow readers); "
-    "clean streams: queue == non-empty payloads of the sent messages. evaluations = histories executed; distinct non-trivial = distinct (class, candidates, stream, splitting) "
+    "clean streams: queue == non-empty payloads of the sent messages; long-lived protocol objects (12 000 / 60 000 messages after a selection in which an earlier candidate returned an invalid message): every payload arrives. evaluations = histories executed; distinct non-trivial = distinct (class, candidates, stream, splitting) "
     "digests in which a reader was selected (>= 1 item reached the queue or the model expected one)."
 )
 ASSUMPTIONS = [
@@ -46,6 +46,7 @@ def _ensure_loop():
 def plan(tier: str, seed: int) -> list[dict]:
     shards = [{"kind": "gen", "n": N_CASES[tier]} for _ in range(15)]
     shards.append({"kind": "socket", "n": 12 if tier == "quick" else 400})
+    shards.append({"kind": "long_lived", "n": 2, "messages": 12000 if tier == "quick" else 60000})
     return shards
 
 
@@ -172,6 +173,24 @@ def make_case(rng):
         cand = rng.choice(("P", "HP", "PH"))
         if "~" in stream.decode("ascii"):
             clean = clean if cand == "P" else None  # a '~' is an HDLC flag: only the model is consulted then
+    elif r < 0.60:
+        # one big pre-selection call (> 8 KiB): many invalid messages / messages of the other kind first, the selecting message late
+        parts = []
+        first = rng.choice(("invalid_frames", "p1_readouts", "noise"))
+        while sum(map(len, parts)) < rng.choice((8300, 9000, 12000, 20000)):
+            if first == "invalid_frames":
+                fr, _ = hdlc_gen.good_frame(rng, None, max_info=30, want_info=True)
+                bad, _k = hdlc_gen.corrupt(rng, fr)
+                parts.append(b"\x7e" + hdlc_gen.on_wire(bad, cfg[0]) + b"\x7e")
+            elif first == "p1_readouts":
+                ro = p1_gen.strict_readout(rng, None, rng.choice((2, 8, 20)))
+                parts.append(ro if rng.random() < 0.5 else p1_gen.with_checksum_text(ro, b"0000"))
+            else:
+                parts.append(hdlc_gen.noise(rng, 200, "flagfree")[0])
+        suffix, _ = resync.hdlc_suffix(rng, cfg, rng.randint(2, 5), 40)
+        stream = b"".join(parts) + suffix
+        kind = "big_single_call"
+        cand = rng.choice(CAND_KINDS)
     elif r < 0.75:
         stream, _ = c01mod.make_stream(rng, cfg)
         kind = "corrupt_hdlc"
@@ -280,9 +299,76 @@ def _cuts_of(delivered):
     return cuts
 
 
+def run_long_lived(shard, ctx) -> None:
+    """One protocol object that lives through tens of thousands of messages after a selection in which an earlier
+    candidate returned an invalid message: every payload sent must still arrive (nothing may go stale)."""
+    from han import meter_connection
+
+    rng = ctx.rng("c13", "long")
+    _ensure_loop()
+    for variant in range(shard["n"]):
+        q: asyncio.Queue = asyncio.Queue()
+        if variant % 2 == 0:
+            cands = [hdlc_mon.new_reader((True, False)), hdlc_mon.new_reader((False, False))]
+            cfg = (False, False)
+        else:
+            cands = [hdlc_mon.new_reader((False, True)), p1_mon.new_reader()]
+            cfg = (False, True)
+        proto = meter_connection.SmartMeterMessagePayloadProtocol(q, cands)
+        ids = hdlc_gen.IdSource(rng)
+        sent = []
+        got = []
+        # first call: a frame that the first candidate sees as invalid (contains 7D) / a corrupted frame plus a good one
+        fr0, d0 = hdlc_gen.good_frame(rng, ids, max_info=30, want_info=True)
+        if variant % 2 == 0:
+            while b"\x7d" not in fr0 or not hdlc_gen.in_plain_domain(fr0, False):
+                fr0, d0 = hdlc_gen.good_frame(rng, ids, max_info=30, want_info=True, dense=True)
+            first = b"\x7e" + fr0 + b"\x7e"
+            sent.append(d0["info"])
+        else:
+            bad, _ = hdlc_gen.corrupt(rng, fr0)
+            ro = p1_gen.strict_readout(rng, None, 3)
+            first = b"\x7e" + bad + b"\x7e" + ro
+            from vf.ref import p1_ref as _p
+
+            sent.append(_p.split_readout(ro)[1])
+        proto.data_received(first)
+        while not q.empty():
+            got.append(q.get_nowait())
+        n_msgs = shard["messages"]
+        for k in range(n_msgs):
+            if variant % 2 == 0:
+                while True:
+                    fr, d = hdlc_gen.good_frame(rng, ids, max_info=24, want_info=True)
+                    if hdlc_gen.in_plain_domain(fr, False):
+                        break
+                data = fr + b"\x7e"
+                sent.append(d["info"])
+            else:
+                ro = p1_gen.strict_readout(rng, None, 1)
+                data = ro
+                sent.append(_p.split_readout(ro)[1])
+            try:
+                proto.data_received(data)
+            except Exception as ex:
+                ctx.count("data_received_raised(decided by C14)")
+                break
+            while not q.empty():
+                got.append(bytes(q.get_nowait()))
+        ctx.count("long_lived_messages", len(sent))
+        ctx.case(f"long{variant}{ctx.seed}", True, len(sent))
+        if got != sent:
+            first_bad = next((i for i, (g, w) in enumerate(zip(got, sent)) if g != w), min(len(got), len(sent)))
+            ctx.violation(f"C13:long-lived-protocol:{classify(got, sent)}", f"{len(sent)} payloads sent through one protocol object, {len(got)} arrived; first difference at #{first_bad}",
+                          {"long_lived": True, "variant": variant, "messages": n_msgs})
+
+
 def run(shard: dict, ctx) -> None:
     if shard["kind"] == "socket":
         run_socket(shard, ctx)
+        return
+    if shard["kind"] == "long_lived":
+        run_long_lived(shard, ctx)
         return
     rng = ctx.rng("c13")
     for i in range(shard["n"]):
@@ -299,6 +385,9 @@ def run(shard: dict, ctx) -> None:
 
 
 def replay(case: dict, ctx) -> None:
+    if case.get("long_lived"):
+        run_long_lived({"n": case["variant"] + 1, "messages": case["messages"]}, ctx)
+        return
     check_history(case["stream"], tuple(case["split"]), case["cands"], tuple(case["cfg"]), case["payload_mode"], case.get("clean_expect"), ctx)
 
 
